@@ -47,6 +47,13 @@ func runC16Main(c *fw.Case) (o fw.Outcome) {
 	r := c.R
 	cfg := genEmuConfig(r)
 	n := 2 + r.Intn(3)
+	k0 := c.Idx / 80
+	if k0%5 == 4 && len(cfg.MNC) == 3 { // by index: the longest MSIN (ten digits: 15-digit IMSI, 2-digit MNC) with its highest carry in every run
+		cfg.MNC = cfg.MNC[:2]
+	}
+	if k0%5 == 4 {
+		cfg.IMSI = cfg.MCC + cfg.MNC + digits(r, 15-3-len(cfg.MNC))
+	}
 	mncLen := len(cfg.MNC)
 	msinLen := len(cfg.IMSI) - 3 - mncLen
 	limit := int64(1)
@@ -55,6 +62,9 @@ func runC16Main(c *fw.Case) (o fw.Outcome) {
 	}
 	k := c.Idx / 80
 	j := 1 + k%(msinLen-1)
+	if k0%5 == 4 {
+		j = msinLen - 1
+	}
 	p10 := int64(1)
 	for i := 0; i < j; i++ {
 		p10 *= 10
